@@ -915,6 +915,10 @@ func cmdC07Script(seed uint64, n int, dir string) {
 		if _, ok := c07Compile(s, true); !ok {
 			continue
 		}
+		if endlessTestString(s) {
+			st.Histogram["test-table string is an endless loop (not run)"]++
+			continue
+		}
 		src := s
 		type res struct {
 			n   int
